@@ -102,7 +102,11 @@ class PITFrozenFeaturesMasker(PITFeaturesMasker):
                  keep_alive_channels: int = 1):
         super(PITFrozenFeaturesMasker, self).__init__(
                 out_channels, trainable=trainable, keep_alive_channels=keep_alive_channels)
-        self.alpha.requires_grad = False
+        # a frozen mask can never be trained: keep it as a buffer (same name, same state_dict
+        # key) rather than as a parameter, so that no optimizer or train_*() call can reach it
+        alpha = self.alpha.detach()
+        del self.alpha
+        self.register_buffer('alpha', alpha)
         self.register_buffer('_fixed_alpha', torch.ones(self.out_channels, dtype=torch.float32))
 
     @property
